@@ -1369,8 +1369,9 @@ int32 matrixSslReceivedData(ssl_t *ssl, uint32 bytes, unsigned char **ptbuf,
 {
     unsigned char *buf, *prevBuf;
     int32 rc, decodeRet, size, sanity, decodeErr;
-    uint32 processed, start, len, reqLen;
-    unsigned char alertLevel, alertDesc;
+    uint32 processed, start = 0, len, reqLen;
+    /* Not every decoder path sets these before they are looked at */
+    unsigned char alertLevel = 0, alertDesc = SSL_ALERT_NONE;
 
     unsigned char *p;
 
